@@ -574,8 +574,10 @@ func e6CatchUpCase(seed uint64, n int) Case {
 		total := 3*kcache.EventBufsiz + 20
 		for i := 0; i < total; i++ {
 			okc := make(chan error, 1)
-			if !within(func() { _, err := g.mutate(rng, u); okc <- err }) {
-				r.V("C05", "producer-blocked", "publishing event %d of %d did not complete within %v of virtual time: a lagging sibling that caught up during its overrun blocks the fan-out\n%s", i, total, virtBound, kit.CensusText(kit.Census(), 10))
+			pdone := make(chan struct{})
+			go func() { _, err := g.mutate(rng, u); okc <- err; close(pdone) }()
+			if !waitCh(pdone, 100*time.Millisecond) { // (short: the lagging consumer polls in virtual time)
+				r.V("C05", "producer-blocked", "publishing event %d of %d did not complete within 100ms of virtual time: a lagging sibling that caught up during its overrun blocks the fan-out\n%s", i, total, kit.CensusText(kit.Census(), 10))
 				close(stop)
 				return
 			}
